@@ -80,6 +80,7 @@ func (Prop) Assumptions() []string {
 		"simulated pools reproduce sync.Pool's per-object release/acquire edge and nothing more",
 		"yield points exist only in platypus code: third-party calls (regexp, grok, xmlquery, json) are atomic in the schedule; races into them are still seen by the detector",
 		"the detector de-duplicates reports per process, so the shrinker re-executes every candidate in a fresh process",
+		"the race build replaces the standard library's sync.Pool.Put by a drop (go build -overlay): no object of fmt/regexp/json pools is handed from one task to another, so those hand-offs cannot order two tasks; yield points are at every statement (R5)",
 	}
 }
 
